@@ -1,6 +1,7 @@
 package main
 
 import (
+	"encoding/json"
 	"fmt"
 	"os"
 	"sort"
@@ -280,6 +281,12 @@ func corrKube(seed uint64, n int, tier string, out string, replay string) {
 		kubeHistory(m, rep, NewRng(id.Seed, uint64(id.Index)), id.Seed, id.Index)
 		if id.Index%25 == 7 {
 			twinGroupCase(rep, NewRng(id.Seed, uint64(id.Index)+1<<32), id.Seed, id.Index)
+		}
+		if id.Index%50 == 21 {
+			longHistoryCase(rep, NewRng(id.Seed, uint64(id.Index)+1<<36), id.Seed, id.Index)
+		}
+		if id.Index%25 == 16 {
+			clusterScopedCase(rep, NewRng(id.Seed, uint64(id.Index)+1<<34), id.Seed, id.Index)
 		}
 	}
 	rep.Write(out, m)
@@ -807,5 +814,167 @@ func kubeSuccessMonitors(rep *Report, st kubeStep, before, after, deployed, targ
 				rep.Issue(Issue{Kind: "monitor", Fingerprint: fp, What: o.Key + " of the latest manifest is still in the cluster after a successful uninstall (resource-policy=" + fmt.Sprintf("%q", policy) + ")", Case: cs, Seed: seed, Index: idx})
 			}
 		}
+	}
+}
+
+// clusterScopedCase: ownership of a cluster-scoped object (a Namespace) is judged like any other: managed-by label,
+// release-name and release-namespace annotations all matching.  The manifest of an install (or of an upgrade that
+// adds it) names a Namespace that exists in one of the ownership states; unless it is this release's own (or
+// --take-ownership is given) the operation is refused before anything is changed.
+func clusterScopedCase(rep *Report, r *Rng, seed uint64, idx int) {
+	w := newSimWorld(driver.NewMemory())
+	defer w.close()
+	state := Pick(r, []string{"foreign", "other-release", "other-namespace", "other-namespace", "partial", "partial", "owned", "managed-only", "absent"})
+	take := r.Chance(20)
+	viaUpgrade := r.Chance(50)
+	nsDoc := "apiVersion: v1\nkind: Namespace\nmetadata:\n  name: shared\n  labels:\n    tier: x\n"
+	cm := func(v string) string {
+		return "apiVersion: v1\nkind: ConfigMap\nmetadata:\n  name: settings\ndata:\n  level: \"" + v + "\"\n"
+	}
+	mk := func(ver int, docs map[string]string) *chart.Chart {
+		c := &chart.Chart{Metadata: &chart.Metadata{APIVersion: "v2", Name: "app", Version: fmt.Sprintf("0.0.%d", ver)}}
+		for _, k := range sortedKeys(docs) {
+			c.Templates = append(c.Templates, &chart.File{Name: "templates/" + k + ".yaml", Data: []byte(docs[k])})
+		}
+		return c
+	}
+	cs := map[string]any{"scenario": "cluster-scoped", "state": state, "takeOwnership": take, "viaUpgrade": viaUpgrade}
+	rep.Count(cs, true)
+	if viaUpgrade {
+		in := action.NewInstall(w.cfg())
+		in.ReleaseName, in.Namespace, in.DisableOpenAPIValidation = "app", "default", true
+		if _, err := in.Run(mk(1, map[string]string{"b-settings": cm("1")}), map[string]any{}); err != nil {
+			rep.Issue(Issue{Kind: "monitor", Fingerprint: "C07:cluster-scoped:install-failed", What: "installing the first revision failed: " + err.Error(), Case: cs, Seed: seed, Index: idx})
+			return
+		}
+	}
+	if state != "absent" {
+		l, a := ownerMeta(state)
+		md := map[string]any{"name": "shared"}
+		if len(l) > 0 {
+			md["labels"] = strMapAny(l)
+		}
+		if len(a) > 0 {
+			md["annotations"] = strMapAny(a)
+		}
+		w.api.mu.Lock()
+		w.api.objs["namespaces/shared"] = map[string]any{"apiVersion": "v1", "kind": "Namespace", "metadata": md}
+		w.api.mu.Unlock()
+	}
+	w.revive()
+	before := canon(w.api.keys())
+	beforeNS, _ := json.Marshal(w.api.objs["namespaces/shared"])
+	histBefore := canon(implLedger(w))
+	logFrom := len(w.api.log)
+	var err error
+	docs := map[string]string{"a-ns": nsDoc, "b-settings": cm("2")}
+	if viaUpgrade {
+		up := action.NewUpgrade(w.cfg())
+		up.Namespace, up.DisableOpenAPIValidation, up.TakeOwnership = "default", true, take
+		_, err = up.Run("app", mk(2, docs), map[string]any{})
+	} else {
+		in := action.NewInstall(w.cfg())
+		in.ReleaseName, in.Namespace, in.DisableOpenAPIValidation, in.TakeOwnership = "app", "default", true, take
+		_, err = in.Run(mk(1, docs), map[string]any{})
+	}
+	muts := w.api.mutations(logFrom)
+	refuse := !take && state != "owned" && state != "absent"
+	rep.H(fmt.Sprintf("cluster-scoped:%s:take=%v:upgrade=%v:err=%v", state, take, viaUpgrade, err != nil))
+	afterNS, _ := json.Marshal(w.api.objs["namespaces/shared"])
+	if refuse {
+		if err == nil {
+			rep.Issue(Issue{Kind: "monitor", Fingerprint: "C07:cluster-scoped:adopted-silently", What: "a cluster-scoped object that exists in ownership state " + state + " was taken over without --take-ownership", Case: cs, Model: string(beforeNS), Impl: map[string]any{"requests": muts, "object": string(afterNS)}, Seed: seed, Index: idx})
+			return
+		}
+		if len(muts) > 0 || canon(w.api.keys()) != before || string(afterNS) != string(beforeNS) || canon(implLedger(w)) != histBefore {
+			rep.Issue(Issue{Kind: "monitor", Fingerprint: "C07:cluster-scoped:refusal-after-mutation", What: "the operation was refused only after the cluster or the history had been changed: " + trunc(err.Error(), 200), Case: cs, Impl: map[string]any{"requests": muts, "history": implLedger(w)}, Seed: seed, Index: idx})
+		}
+		return
+	}
+	if err != nil {
+		rep.Issue(Issue{Kind: "monitor", Fingerprint: "C07:cluster-scoped:refused-own", What: "an operation whose manifest names a cluster-scoped object that is absent / its own / taken over with --take-ownership failed: " + trunc(err.Error(), 200), Case: cs, Seed: seed, Index: idx})
+	}
+}
+
+// longHistoryCase: a release with 10-13 revisions on the Secret / ConfigMap / memory driver (records whose keys sort
+// differently as strings and as numbers), whose manifest changes late in the history (an object added, a keep
+// policy dropped, another one gained); then uninstall, or a rollback to the previous revision: the operation works
+// from the newest revision -- afterwards exactly the objects that revision keeps are left (uninstall), or the
+// cluster holds exactly the target revision's objects (rollback).
+func longHistoryCase(rep *Report, r *Rng, seed uint64, idx int) {
+	backend := Pick(r, []string{"secrets", "secrets", "configmaps", "memory"})
+	w := newSimWorld(newBackend(backend))
+	defer w.close()
+	nrev := 10 + r.Intn(4)
+	change := 8 + r.Intn(nrev-8) // the revision from which the manifest is the late one (9 .. nrev-1: a two-digit or the last one-digit revision)
+	op := Pick(r, []string{"uninstall", "uninstall", "uninstall-keep-history", "rollback"})
+	cmDoc := func(name, level string, keep bool) string {
+		a := ""
+		if keep {
+			a = "  annotations:\n    \"helm.sh/resource-policy\": keep\n"
+		}
+		return "apiVersion: v1\nkind: ConfigMap\nmetadata:\n  name: " + name + "\n" + a + "data:\n  level: \"" + level + "\"\n"
+	}
+	mk := func(ver int) *chart.Chart {
+		late := ver > change
+		c := &chart.Chart{Metadata: &chart.Metadata{APIVersion: "v2", Name: "app", Version: fmt.Sprintf("0.0.%d", ver)}}
+		docs := map[string]string{"base": cmDoc("base", fmt.Sprint(ver), false), "archive": cmDoc("archive", "a", !late), "vault": cmDoc("vault", "v", late)}
+		if late {
+			docs["late"] = cmDoc("late", "l", false)
+		} else {
+			docs["early"] = cmDoc("early", "e", false)
+		}
+		for _, k := range sortedKeys(docs) {
+			c.Templates = append(c.Templates, &chart.File{Name: "templates/" + k + ".yaml", Data: []byte(docs[k])})
+		}
+		return c
+	}
+	cs := map[string]any{"scenario": "long-history", "backend": backend, "revisions": nrev, "manifestChangesAfter": change, "op": op}
+	rep.Count(cs, true)
+	for v := 1; v <= nrev; v++ {
+		w.revive()
+		var err error
+		if v == 1 {
+			in := action.NewInstall(w.cfg())
+			in.ReleaseName, in.Namespace, in.DisableOpenAPIValidation = "app", "default", true
+			_, err = in.Run(mk(v), map[string]any{})
+		} else {
+			up := action.NewUpgrade(w.cfg())
+			up.Namespace, up.DisableOpenAPIValidation = "default", true
+			_, err = up.Run("app", mk(v), map[string]any{})
+		}
+		if err != nil {
+			rep.Issue(Issue{Kind: "monitor", Fingerprint: "C02:long-history:setup", What: fmt.Sprintf("revision %d: %v", v, err), Case: cs, Seed: seed, Index: idx})
+			return
+		}
+	}
+	w.revive()
+	var err error
+	want := []string{}
+	switch op {
+	case "uninstall", "uninstall-keep-history":
+		un := action.NewUninstall(w.cfg())
+		un.KeepHistory = op == "uninstall-keep-history"
+		_, err = un.Run("app")
+		// the newest revision (always a late one unless change == nrev-1 ... nrev > change by construction) keeps vault only
+		want = []string{"namespaces/default/configmaps/vault"}
+	case "rollback":
+		rb := action.NewRollback(w.cfg())
+		err = rb.Run("app") // to the previous revision, nrev-1
+		if nrev-1 > change {
+			want = []string{"namespaces/default/configmaps/archive", "namespaces/default/configmaps/base", "namespaces/default/configmaps/late", "namespaces/default/configmaps/vault"}
+		} else {
+			// back to an early manifest: late goes, early comes back; vault was kept by the late revision and stays
+			want = []string{"namespaces/default/configmaps/archive", "namespaces/default/configmaps/base", "namespaces/default/configmaps/early", "namespaces/default/configmaps/vault"}
+		}
+	}
+	rep.H(fmt.Sprintf("long-history:%s:%s:err=%v", backend, op, err != nil))
+	if err != nil {
+		rep.Issue(Issue{Kind: "monitor", Fingerprint: "C02:long-history:failed", What: op + " after a long healthy history failed: " + trunc(err.Error(), 200), Case: cs, Seed: seed, Index: idx})
+		return
+	}
+	got := w.api.keys()
+	if !jsonEqual(got, want) {
+		rep.Issue(Issue{Kind: "monitor", Fingerprint: "C02:long-history:" + strings.SplitN(op, "-", 2)[0], What: fmt.Sprintf("after a successful %s of a release with %d revisions the cluster does not hold what the newest / target revision says", op, nrev), Case: cs, Model: want, Impl: got, Seed: seed, Index: idx})
 	}
 }
